@@ -18,12 +18,17 @@ pub struct Chunks {
     pub hang: bool,
     pend: bool,
     pended: bool,
+    /// async only: while `held` is set, reads are Pending once `hold_after` chunks have been handed out (nothing more has arrived yet)
+    hold_after: usize,
+    handed: usize,
+    held: std::sync::Arc<std::sync::atomic::AtomicBool>,
 }
 
 impl Chunks {
     pub fn new(chunks: Vec<Vec<u8>>, pend: bool) -> Chunks {
         let total: usize = chunks.iter().map(|c| c.len()).sum();
-        Chunks { chunks: chunks.into_iter().filter(|c| !c.is_empty()).collect(), reads: 0, limit: 2 * total + chunks_len_guard(total), hang: false, pend, pended: false }
+        Chunks { chunks: chunks.into_iter().filter(|c| !c.is_empty()).collect(), reads: 0, limit: 2 * total + chunks_len_guard(total), hang: false, pend, pended: false,
+                 hold_after: usize::MAX, handed: 0, held: Default::default() }
     }
     fn take_chunk(&mut self, want: usize) -> io::Result<Vec<u8>> {
         self.reads += 1;
@@ -38,6 +43,7 @@ impl Chunks {
                 let d: Vec<u8> = front.drain(..n).collect();
                 if front.is_empty() {
                     self.chunks.pop_front();
+                    self.handed += 1;
                 }
                 Ok(d)
             }
@@ -59,6 +65,9 @@ impl Read for Chunks {
 
 impl AsyncRead for Chunks {
     fn poll_read(mut self: Pin<&mut Self>, cx: &mut Context<'_>, buf: &mut ReadBuf<'_>) -> Poll<io::Result<()>> {
+        if self.held.load(std::sync::atomic::Ordering::SeqCst) && self.handed >= self.hold_after {
+            return Poll::Pending; // (nobody wakes this: the future is polled by hand and then dropped)
+        }
         if self.pend && !self.pended {
             self.pended = true;
             cx.waker().wake_by_ref();
@@ -187,11 +196,18 @@ fn run_receive_sync(chunks: Vec<Vec<u8>>, maxcalls: usize) -> (Vec<Value>, Strin
     (out, again, io.reads, io.hang)
 }
 
-fn run_receive_async(chunks: Vec<Vec<u8>>, maxcalls: usize, pend: bool) -> (Vec<Value>, String, usize, bool) {
+fn run_receive_async(chunks: Vec<Vec<u8>>, maxcalls: usize, pend: bool, cancel_after: usize) -> (Vec<Value>, String, usize, bool) {
     let rt = tokio::runtime::Builder::new_current_thread().build().unwrap();
     let mut all = vec![GREETING.to_vec()];
     all.extend(chunks);
-    let rd = Chunks::new(all, pend);
+    let mut rd = Chunks::new(all, pend);
+    let held = rd.held.clone();
+    if cancel_after > 0 {
+        // a receive that is CANCELLED (as a select! does) after the first `cancel_after` chunks arrived and nothing more:
+        // polled once, dropped while it waits, then receive is called afresh
+        rd.hold_after = 1 + cancel_after;
+        held.store(true, std::sync::atomic::Ordering::SeqCst);
+    }
     let mut conn = match rt.block_on(AsyncConnection::connect(rd)) {
         Ok(c) => c,
         Err(_) => return (vec![], "connect_failed".into(), 0, false),
@@ -200,6 +216,26 @@ fn run_receive_async(chunks: Vec<Vec<u8>>, maxcalls: usize, pend: bool) -> (Vec<
     let mut again = String::new();
     let mut terminal = false;
     hooks_begin();
+    if cancel_after > 0 {
+        let first = catch_unwind(AssertUnwindSafe(|| rt.block_on(crate::session::poll_once(conn.receive()))));
+        held.store(false, std::sync::atomic::Ordering::SeqCst);
+        match first {
+            Err(_) => {
+                out.push(json!({"t": "PANIC", "resp": {"frames": [], "err": []}}));
+                let io = conn.into_inner();
+                return (out, "skipped".into(), io.reads, io.hang);
+            }
+            Ok(None) => {} // cancelled while waiting: the usual calls follow
+            Ok(Some(r)) => {
+                // (it completed in its first poll: nothing was cancelled)
+                let (t, v) = outcome(r);
+                ev_out(&t);
+                let is_resp = t == "resp";
+                out.push(json!({"t": t, "resp": v}));
+                terminal = !is_resp;
+            }
+        }
+    }
     for _ in 0..maxcalls {
         let r = catch_unwind(AssertUnwindSafe(|| rt.block_on(conn.receive())));
         let (t, v) = match r {
@@ -265,7 +301,8 @@ pub fn run_case(c: &Value) -> Value {
         return json!({"e": "greet", "id": c["id"], "stream": stream, "flavour": flavour, "res": res, "version": version, "nreads": reads, "nchunks": nchunks, "hang": hang});
     }
     let maxcalls = 12 + stream.iter().filter(|&&b| b == b'\n').count();
-    let (out, again, reads, hang) = if flavour == "sync" { run_receive_sync(chunks, maxcalls) } else { run_receive_async(chunks, maxcalls, pend) };
+    let cancel_after = c["cancel_after"].as_u64().unwrap_or(0) as usize;
+    let (out, again, reads, hang) = if flavour == "sync" { run_receive_sync(chunks, maxcalls) } else { run_receive_async(chunks, maxcalls, pend, cancel_after) };
     let evs = hooks_end();
     if big {
         // large streams: the record carries a digest of the outcomes instead of the bytes (compared across
